@@ -18,7 +18,8 @@ McHexStr == Tab.hexstr
 McStrRank == Tab.rank
 
 INSTANCE KStore WITH Num10 <- McNum10, Num16 <- McNum16, NumC <- McNumC,
-                     DecStr <- McDecStr, HexStr <- McHexStr, StrRank <- McStrRank
+                     DecStr <- McDecStr, HexStr <- McHexStr, StrRank <- McStrRank,
+                    NumF <- Tab.numf, NormF <- Tab.normf, FCanon <- Tab.fcanon
 
 Progs == Data.progs
 NT    == Len(Progs)
@@ -42,7 +43,10 @@ P0 == LET vs == Progs[t].vars IN
 U0 == LET vs == Progs[t].vars IN
       [n \in {x.syms[k] : k \in 1..Len(x.syms)} |->
          LET ks == VarIdx(vs, n, "sym") IN
-         IF ks # {} THEN PickOf(vs, i, CHOOSE k \in ks : TRUE)
+         IF ks # {} THEN
+            LET raw == PickOf(vs, i, CHOOSE k \in ks : TRUE)
+                ty == x.s[n].type
+            IN IF raw = NoVal THEN NoVal ELSE IF ValidFor(ty, raw) THEN Norm(ty, raw) ELSE NoVal
          ELSE IF x.s[n].ch # "" /\ P0[x.s[n].ch] = n THEN "y" ELSE NoVal]
 
 Init == t \in 1..NT /\ i = 0 /\ x = Index(Flatten(Progs[t].prog))
